@@ -64,7 +64,10 @@ func getHTTPBreaker(ctx *Context, uri string) *OutboundBreaker {
 	}
 	u, err := url.Parse(uri)
 	if err != nil {
+		// (No URL, no host, no breaker.  The request itself will
+		// report the bad URL.)
 		Log(WARN, ctx, "getHTTPBreaker", "error", err, "url", uri)
+		return nil
 	}
 	b, _ = HTTPBreakers[u.Host]
 	return b
